@@ -144,9 +144,8 @@ package decimal
 //@   ensures[value,C07] q*B + r == n1*_B + n0 && r < B
 
 //@ func div10W(n1, n0 Word) (q, r Word)
-//@   requires[nooverflow] n1 < B
-//@   ensures[value,C07] q*B + r == n1*_B + n0 && r < B
-//@   status assumed assembly routine; same contract as div10W_g (see C07)
+//@   same div10W_g
+//@   status assumed assembly
 
 //@ func div10WW_g(u1, u0, v Word) (q, r Word)
 //@   requires[nooverflow] u1 < v && v <= B && u0 < B
@@ -155,3 +154,203 @@ package decimal
 //@ func mulAdd10WWW_g(x, y, c Word) (hi, lo Word)
 //@   requires[words] x < B && y < B && c < B
 //@   ensures[value,C07] hi*B + lo == x*y + c && lo < B && hi < B
+
+//@ lemma V_low(m array, lo, hi)
+//@   requires lo < hi
+//@   ensures V(m, lo, hi) == m[lo] + B*V(m, lo+1, hi)
+//@   use V_split(m, lo, lo+1, hi)
+//@   use Vdef(m, lo, lo)
+
+//@ lemma mul_mono(a, b, c)
+//@   requires a <= b && c >= 0
+//@   ensures a*c <= b*c
+
+//@ func mulAdd10VWW_g(z, x []Word, y, r Word) (c Word)
+//@   requires[len]     len(x) >= len(z)
+//@   requires[words]   wordsok(x[:len(z)]) && y < B && r < B
+//@   requires[overlap] inplace_or_disjoint(z, x)
+//@   modifies mem(z)
+//@   ensures[carry,C07] c < B
+//@   ensures[words,C06,C07,C08] wordsok(z)
+//@   ensures[value,C01,C06,C07] V(z) + c*P(len(z)) == old(V(x[:len(z)]))*y + r
+//@   loop 1 invariant[range] 0 <= i && i <= len(z) && c < B
+//@   loop 1 invariant[words] wordsok(z[:i])
+//@   loop 1 invariant[value] V(z[:i]) + c*P(i) == old(V(x[:i]))*y + r
+//@   loop 1 invariant[rest]  forall k in i..len(z) :: x[k] == old(x[k])
+//@   loop 1 modifies mem(z)
+//@   loop 1 hint[head] i < len(z) ==> mul_mono(x[i], B-1, y)
+//@   loop 1 hint Vdef(z, 0, i-1)
+//@   loop 1 hint Vdef(old(x), 0, i-1)
+//@   loop 1 hint Pdef(i-1)
+
+//@ func addMul10VVW_g(z, x []Word, y Word) (c Word)
+//@   requires[len]     len(x) >= len(z)
+//@   requires[words]   wordsok(x[:len(z)]) && wordsok(z) && y < B
+//@   requires[overlap] disjoint(z, x[:len(z)])
+//@   modifies mem(z)
+//@   ensures[carry,C07] c < B
+//@   ensures[words,C06,C07,C08] wordsok(z)
+//@   ensures[value,C01,C06,C07] V(z) + c*P(len(z)) == old(V(z)) + old(V(x[:len(z)]))*y
+//@   loop 1 invariant[range] 0 <= i && i <= len(z) && c < B
+//@   loop 1 invariant[words] wordsok(z[:i])
+//@   loop 1 invariant[value] V(z[:i]) + c*P(i) == old(V(z[:i])) + old(V(x[:i]))*y
+//@   loop 1 invariant[rest]  forall k in i..len(z) :: z[k] == old(z[k])
+//@   loop 1 invariant[restx] forall k in 0..len(z) :: x[k] == old(x[k])
+//@   loop 1 modifies mem(z)
+//@   loop 1 hint[head] i < len(z) ==> mul_mono(x[i], B-1, y)
+//@   loop 1 hint Vdef(z, 0, i-1)
+//@   loop 1 hint Vdef(old(z), 0, i-1)
+//@   loop 1 hint Vdef(old(x), 0, i-1)
+//@   loop 1 hint Pdef(i-1)
+
+//@ func div10VWW_g(z, x []Word, y, xn Word) (r Word)
+//@   requires[len]     len(x) >= len(z)
+//@   requires[words]   wordsok(x[:len(z)]) && xn < y && y <= B
+//@   requires[overlap] inplace_or_disjoint(z, x)
+//@   modifies mem(z)
+//@   ensures[rem,C07]  r < y
+//@   ensures[words,C06,C07,C08] wordsok(z)
+//@   ensures[value,C01,C06,C07] V(z)*y + r == xn*P(len(z)) + old(V(x[:len(z)]))
+//@   loop 1 invariant[range] -1 <= i && i < len(z) && r < y
+//@   loop 1 invariant[words] wordsok(z[i+1:])
+//@   loop 1 invariant[value] V(z[i+1:])*y + r == xn*P(len(z)-i-1) + old(V(x[i+1:len(z)]))
+//@   loop 1 invariant[rest]  forall k in 0..i+1 :: x[k] == old(x[k])
+//@   loop 1 modifies mem(z)
+//@   loop 1 hint V_low(z, i+1, len(z))
+//@   loop 1 hint V_low(old(x), i+1, len(z))
+//@   loop 1 hint Pdef(len(z)-i-2)
+
+//@ func add10VW_g(z, x []Word, y Word) (c Word)
+//@   requires[len]     len(x) >= len(z)
+//@   requires[words]   wordsok(x[:len(z)]) && y < B
+//@   requires[overlap] inplace_or_disjoint(z, x)
+//@   modifies mem(z)
+//@   ensures[carry,C07] len(z) > 0 ==> c <= 1
+//@   ensures[empty,C07] len(z) == 0 ==> c == y
+//@   ensures[words,C06,C07,C08] wordsok(z)
+//@   ensures[value,C01,C06,C07] V(z) + c*P(len(z)) == old(V(x[:len(z)])) + y
+//@   loop 1 invariant[range] 1 <= i && i <= len(z) && c <= 1
+//@   loop 1 invariant[words] wordsok(z[:i])
+//@   loop 1 invariant[value] V(z[:i]) + c*P(i) == old(V(x[:i])) + y
+//@   loop 1 invariant[rest]  forall k in i..len(z) :: x[k] == old(x[k])
+//@   loop 1 modifies mem(z)
+//@   loop 1 hint Vdef(z, 0, i-1)
+//@   loop 1 hint Vdef(old(x), 0, i-1)
+//@   loop 1 hint Pdef(i-1)
+//@   loop 1 hint[head] i < len(z) ==> V_eq(x, old(x), i+1, len(z))
+//@   hint[ret] i < len(z) ==> V_split(z, 0, i+1, len(z))
+//@   hint[ret] i < len(z) ==> V_split(old(x), 0, i+1, len(z))
+//@   hint[ret] i < len(z) ==> Vdef(z, 0, i)
+//@   hint[ret] i < len(z) ==> Vdef(old(x), 0, i)
+//@   hint[ret] i < len(z) ==> Pdef(i)
+
+//@ func sub10VW_g(z, x []Word, y Word) (c Word)
+//@   requires[len]     len(x) >= len(z)
+//@   requires[words]   wordsok(x[:len(z)]) && y < B
+//@   requires[overlap] inplace_or_disjoint(z, x)
+//@   modifies mem(z)
+//@   ensures[carry,C07] len(z) > 0 ==> c <= 1
+//@   ensures[empty,C07] len(z) == 0 ==> c == y
+//@   ensures[words,C06,C07,C08] wordsok(z)
+//@   ensures[value,C01,C06,C07] V(z) + y == old(V(x[:len(z)])) + c*P(len(z))
+//@   loop 1 invariant[range] 0 <= i && i <= len(z) && (i == 0 ==> c == y) && (i > 0 ==> c <= 1)
+//@   loop 1 invariant[words] wordsok(z[:i])
+//@   loop 1 invariant[value] V(z[:i]) + y == old(V(x[:i])) + c*P(i)
+//@   loop 1 invariant[rest]  forall k in i..len(z) :: x[k] == old(x[k])
+//@   loop 1 modifies mem(z)
+//@   loop 1 hint Vdef(z, 0, i-1)
+//@   loop 1 hint Vdef(old(x), 0, i-1)
+//@   loop 1 hint Pdef(i-1)
+//@   loop 1 hint[head] i < len(z) ==> V_eq(x, old(x), i+1, len(z))
+//@   hint[ret] i < len(z) ==> V_split(z, 0, i+1, len(z))
+//@   hint[ret] i < len(z) ==> V_split(old(x), 0, i+1, len(z))
+//@   hint[ret] i < len(z) ==> Vdef(z, 0, i)
+//@   hint[ret] i < len(z) ==> Vdef(old(x), 0, i)
+//@   hint[ret] i < len(z) ==> Pdef(i)
+
+//@ func divisorPow10(n uint) magic
+//@   requires[range] 1 <= n && n <= 18
+//@   ensures[row] intable(pow10DivTab64, result) && result.d == p10(n)
+
+//@ func (m magic) div(n Word) (q, r Word)
+//@   requires[row] intable(pow10DivTab64, m)
+//@   split m in table pow10DivTab64
+//@   ensures[value,C07] q == n / m.d && r == n % m.d
+
+//@ func shl10VU_g(z, x []Word, s uint) (r Word)
+//@   requires[len]     len(x) == len(z)
+//@   requires[shift]   s < 19
+//@   requires[words]   wordsok(x)
+//@   requires[overlap] z.arr != x.arr || z.off >= x.off || disjoint(z, x)
+//@   split s in 0..18
+//@   modifies mem(z)
+//@   ensures[carry,C07] r < p10(s)
+//@   ensures[words,C06,C07,C08] wordsok(z)
+//@   ensures[value,C01,C07] V(z) + r*P(len(z)) == old(V(x))*p10(s)
+//@   loop 1 invariant[range] 0 <= i && i < len(z) && r < p10(s) && l == old(x[i]) % p10(19-s)
+//@   loop 1 invariant[words] wordsok(z[i+1:])
+//@   loop 1 invariant[value] V(z[i+1:]) + r*P(len(z)-i-1) == old(V(x[i+1:]))*p10(s) + old(x[i]) / p10(19-s)
+//@   loop 1 invariant[rest]  forall k in 0..i+1 :: x[k] == old(x[k])
+//@   loop 1 modifies mem(z)
+//@   loop 1 hint V_low(z, i+1, len(z))
+//@   loop 1 hint V_low(old(x), i+1, len(z))
+//@   loop 1 hint Pdef(len(z)-i-2)
+//@   hint[ret] len(z) > 0 ==> V_low(z, 0, len(z))
+//@   hint[ret] len(z) > 0 ==> V_low(old(x), 0, len(z))
+//@   hint[ret] len(z) > 0 ==> Pdef(len(z)-1)
+
+//@ func shr10VU_g(z, x []Word, s uint) (r Word)
+//@   requires[len]     len(x) == len(z)
+//@   requires[shift]   s < 19
+//@   requires[words]   wordsok(x)
+//@   requires[overlap] z.arr != x.arr || z.off <= x.off || disjoint(z, x)
+//@   split s in 0..18
+//@   modifies mem(z)
+//@   ensures[carry,C07] r < B
+//@   ensures[words,C06,C07,C08] wordsok(z)
+//@   ensures[value,C01,C07] V(z)*B + r == old(V(x))*p10(19-s)
+//@   loop 1 invariant[range] 1 <= i && i <= len(z) && r < p10(s) && h < p10(19-s)
+//@   loop 1 invariant[words] wordsok(z[:i-1])
+//@   loop 1 invariant[value] old(V(x[:i])) == p10(s)*(V(z[:i-1]) + h*P(i-1)) + r
+//@   loop 1 invariant[rest]  forall k in i..len(z) :: x[k] == old(x[k])
+//@   loop 1 modifies mem(z)
+//@   loop 1 hint Vdef(z, 0, i-2)
+//@   loop 1 hint Vdef(old(x), 0, i-1)
+//@   loop 1 hint Pdef(i-2)
+//@   hint[ret] len(z) > 0 ==> Vdef(z, 0, len(z)-1)
+
+// Assembly-declared kernels (default amd64 build): the contract of each is that of
+// its portable twin; whether the assembly meets it is the subject of C07.
+//@ func mul10WW(x, y Word) (z1, z0 Word)
+//@   same mul10WW_g
+//@   status assumed assembly
+//@ func div10WW(u1, u0, v Word) (q, r Word)
+//@   same div10WW_g
+//@   status assumed assembly
+//@ func add10VV(z, x, y []Word) (c Word)
+//@   same add10VV_g
+//@   status assumed assembly
+//@ func sub10VV(z, x, y []Word) (c Word)
+//@   same sub10VV_g
+//@   status assumed assembly
+//@ func add10VW(z, x []Word, y Word) (c Word)
+//@   same add10VW_g
+//@   status assumed assembly
+//@ func sub10VW(z, x []Word, y Word) (c Word)
+//@   same sub10VW_g
+//@   status assumed assembly
+//@ func shl10VU(z, x []Word, s uint) (r Word)
+//@   same shl10VU_g
+//@   status assumed assembly
+//@ func shr10VU(z, x []Word, s uint) (r Word)
+//@   same shr10VU_g
+//@   status assumed assembly
+//@ func mulAdd10VWW(z, x []Word, y, r Word) (c Word)
+//@   same mulAdd10VWW_g
+//@   status assumed assembly
+//@ func addMul10VVW(z, x []Word, y Word) (c Word)
+//@   same addMul10VVW_g
+//@   status assumed assembly
+//@ func div10VWW(z, x []Word, y, xn Word) (r Word)
+//@   same div10VWW_g
+//@   status assumed assembly
